@@ -501,7 +501,32 @@ def r03_7(ctx, S, prog, crate):
     requested_action_governs(ctx, "R03.7", prog, crate)
 
 
+def bench_mode_tables(ctx, rule, prog, crate):
+    """The mode predicates the sampling rules take at their word: is_test/is_tune/is_collect are true for exactly their
+    variant, and sample_size() is 1 in test mode and the variant's own sample size otherwise."""
+    from rules.common import variant_predicates, variant_table
+    variant_predicates(ctx, rule, prog, crate, "benchmark::BenchMode", 3)
+    b = prog.body("benchmark::BenchMode::sample_size", crate)
+    if ctx.anchor(rule, "BenchMode::sample_size", 1 if b else 0, 1):
+        ctx.saw(b)
+        t = variant_table(prog, b, crate)
+        if ctx.check(t is not None, rule, ["sample_size", "decided-by-variant"], "cannot read BenchMode::sample_size as a function of the variant", b.where(0)):
+            for v, e in sorted(t.items()):
+                adt = prog.adt("benchmark::BenchMode", crate)
+                has_payload = any(x["fields"] for x in adt["variants"] if x["name"] == v)
+                if has_payload:
+                    ok = e[0] == "payload" and e[1] == v and "('arg', 1" in str(e[3])
+                    ctx.check(ok, rule, ["sample_size", v, "own-payload"], "BenchMode::%s.sample_size() is %s, expected the variant's own sample size" % (v, e), b.where(0))
+                else:
+                    ctx.check(e == ("int", 1), rule, ["sample_size", v, "one"], "BenchMode::%s.sample_size() is %s, expected 1" % (v, e), b.where(0))
+
+
+def r03_8(ctx, prog, crate):
+    bench_mode_tables(ctx, "R03.8", prog, crate)
+
+
 def run(ctx, prog, crate):
+    r03_8(ctx, prog, crate)
     S = Sampling(prog, crate)
     if not ctx.anchor("R03.1", "sampling loop", 1 if S.body is not None and S.loop is not None and S.cond_switch is not None else 0, 1):
         return
